@@ -248,3 +248,21 @@ _reg(
     "DESIGN.md 3/C13",
     "Fault enumeration over call boundaries into foreign code while the patch stack is built and over later stages; asynchronous exceptions are outside the fault model.",
 )
+
+_reg(
+    "C14",
+    "exploration",
+    "requests = registered testcases covering the history-sensitive mechanisms (transpose-heavy CNNs, add forests, function dedup, loops/conds, "
+    "symbolic dims, attention, dropout; quick 40, thorough 400) + 7 hand-written requests (layout flags on an add forest, function dedup with "
+    "array captures, nested functions, loops+conds, two symbols, many transposes with several outputs, double-precision constants) + "
+    "pattern-neighbourhood graphs pushed through the real optimize_graph (quick 60, thorough 600). Every group of requests is exported in 5 "
+    "fresh subprocesses: PYTHONHASHSEED 0 forward order with in-process repetition; 1 reversed order with unrelated succeeding/failing/other-"
+    "precision/other-opset conversions interleaved; 2 shuffled order with plugin modules imported in shuffled order; 3 after a long unrelated "
+    "history; random hash seed shuffled with repetition. The sha256 of SerializeToString(deterministic=True) must be one value per request. "
+    "evaluations = serialisations compared; non-trivial = request exported in >= 2 processes; distinct = request.",
+    (300, 80, 3000, 800),
+    "history monitor: digests of deterministic serialisations across subprocesses with different PYTHONHASHSEED, plugin import order, repetition and preceding conversion histories",
+    "DESIGN.md 3/C14",
+    "Exploration over hash seeds {0,1,2,3,random} x history shapes; holds for the requests and histories exercised.",
+    max_workers=4,
+)
